@@ -60,9 +60,45 @@ func writeUse(in ssa.Instruction, v ssa.Value) (string, bool) {
 				return "", false
 			}
 		}
+		// handed to a function: a write only if what it is received as can be written to (an io.Closer cannot)
+		if sig, ok := cc.Value.Type().Underlying().(*types.Signature); ok || cc.IsInvoke() {
+			var pt types.Type
+			if cc.IsInvoke() {
+				if i < cc.Signature().Params().Len() {
+					pt = cc.Signature().Params().At(i).Type()
+				}
+			} else if ok {
+				j := i
+				if sig.Recv() != nil {
+					j = i - 1
+				}
+				if j >= 0 && j < sig.Params().Len() {
+					pt = sig.Params().At(j).Type()
+				}
+			}
+			if it, isIface := typeUnderlyingInterface(pt); isIface && it.NumMethods() > 0 {
+				canWrite := false
+				for m := 0; m < it.NumMethods(); m++ {
+					if writeMethods[it.Method(m).Name()] {
+						canWrite = true
+					}
+				}
+				if !canWrite {
+					return "", false
+				}
+			}
+		}
 		return ir.CallName(call) + "(arg)", true
 	}
 	return "", false
+}
+
+func typeUnderlyingInterface(t types.Type) (*types.Interface, bool) {
+	if t == nil {
+		return nil, false
+	}
+	it, ok := t.Underlying().(*types.Interface)
+	return it, ok
 }
 
 // derived returns v and values derived from it without changing the underlying stream
@@ -1183,8 +1219,8 @@ func c09DataLineWhole(c *Ctx, rule string) {
 				return
 			}
 			for _, a := range call.Common().Args {
-				if s, ok := ir.ConstStr(ir.Unwrap(a)); ok && strings.HasPrefix(s, "data: ") {
-					emits = true
+				if s, ok := ir.ConstStr(ir.Unwrap(a)); ok && (strings.HasPrefix(s, "data: ") || s == "data" || s == "data:") {
+					emits = true // (also through a `writeField(b, "data", line)` helper)
 				}
 				if cv, ok := a.(*ssa.Convert); ok {
 					if s, ok := ir.ConstStr(cv.X); ok && strings.HasPrefix(s, "data: ") {
@@ -1301,7 +1337,7 @@ func c09DataLineWhole(c *Ctx, rule string) {
 		c.R.Check(bad == "", rule, "data lines of "+fname(fn), c.Pos(fn.Pos()), "the payload is divided into data lines only at its own newlines",
 			sprintf("%s emits SSE data lines and cuts the payload with a slice expression at %s, at an offset that is not the position of a newline in it (a length limit): the receiver joins data lines with a newline, so a long message arrives with a raw line break inside its JSON text and is not a well-formed JSON-RPC message", fname(fn), bad))
 	}
-	if n < 2 {
+	if n < 1 {
 		c.R.Break("%s: only %d functions emitting SSE data lines found", rule, n)
 	}
 }
